@@ -157,15 +157,25 @@ func ruleC13Isolation(c *Ctx) {
 		c.violate("C13.isolation", "env:shape", st.Pos(), name, "cmd.Env is not os.Environ() followed by the forced variables")
 		return
 	}
-	if bc, ok := base.(*ssa.Call); !ok || calleeQ(&bc.Call) != "os.Environ" {
-		c.violate("C13.isolation", "env:base", st.Pos(), name, "cmd.Env does not start from os.Environ(): the forced variables must come after the inherited ones so that they win")
-	} else {
+	isEnviron := func(v ssa.Value) bool {
+		bc, ok := c.resolve(v).(*ssa.Call)
+		return ok && calleeQ(&bc.Call) == "os.Environ"
+	}
+	// the sequence of pieces cmd.Env is made of: append(os.Environ(), …) or
+	// an empty slice to which os.Environ()... is appended first
+	switch {
+	case isEnviron(base):
 		c.hold("C13.isolation", "env:base", st.Pos(), "append(os.Environ(), …)")
+	case isEmptySliceBase(base) && chain[0].Spread != nil && isEnviron(chain[0].Spread):
+		c.hold("C13.isolation", "env:base", st.Pos(), "an empty slice, then os.Environ()..., then the forced variables")
+		chain = chain[1:]
+	default:
+		c.violate("C13.isolation", "env:base", st.Pos(), name, "cmd.Env does not start from os.Environ(): the forced variables must come after the inherited ones so that they win")
 	}
 	var elems []ssa.Value
 	for _, ce := range chain {
 		if ce.Spread != nil {
-			if bc, ok := ce.Spread.(*ssa.Call); ok && calleeQ(&bc.Call) == "os.Environ" {
+			if isEnviron(ce.Spread) {
 				c.violate("C13.isolation", "env:order", st.Pos(), name, "the inherited environment is appended after the forced variables: an inherited GIT_DIR/GIT_GRAFT_FILE would win")
 				continue
 			}
@@ -594,6 +604,12 @@ func ruleC13GitDir(c *Ctx) {
 				return
 			}
 			n++
+			// the directory is the one git itself reports for the start directory
+			if ok, why := c.fromDiscovery(st.Val, 0); ok {
+				c.hold("C13.gitdir", fnName(f)+":discovered", st.Pos(), "on every path the value derives from the output of `git -C <path> rev-parse --git-dir`")
+			} else {
+				c.violate("C13.gitdir", fnName(f)+":discovered", st.Pos(), fnName(f), "the git directory does not on every path come from `git -C <path> rev-parse --git-dir` ("+why+"): GIT_DIR, linked worktrees, bare repositories or `git -C` would address a different repository than git itself would")
+			}
 			if _, isAlloc := fa.X.(*ssa.Alloc); isAlloc {
 				c.hold("C13.gitdir", fnName(f)+":init", st.Pos(), "written while constructing the Repository")
 			} else {
@@ -604,4 +620,95 @@ func ruleC13GitDir(c *Ctx) {
 	if n == 0 {
 		c.violate("C13.gitdir", "no-init", token.NoPos, "", "the field used for GIT_DIR is never initialised")
 	}
+}
+
+// fromDiscovery: v derives, on every path, from the standard output of the
+// `rev-parse --git-dir` process.
+func (c *Ctx) fromDiscovery(v ssa.Value, depth int) (bool, string) {
+	if depth > 10 {
+		return false, "value chain too deep"
+	}
+	v = c.resolve(v)
+	switch x := v.(type) {
+	case *ssa.Extract:
+		call, ok := x.Tuple.(*ssa.Call)
+		if !ok {
+			return false, "not a process output"
+		}
+		q := calleeQ(&call.Call)
+		if (q == "(*os/exec.Cmd).Output" || q == "(*os/exec.Cmd).CombinedOutput") && x.Index == 0 {
+			cmd := c.resolve(call.Call.Args[0])
+			for _, s := range c.spawnTable() {
+				if ssa.Value(asCallValue(s.Call)) == cmd {
+					hasRev, hasDir := false, false
+					for _, a := range s.Argv {
+						if a == "rev-parse" {
+							hasRev = true
+						}
+						if a == "--git-dir" || a == "--absolute-git-dir" {
+							hasDir = true
+						}
+					}
+					if hasRev && hasDir {
+						return true, ""
+					}
+					return false, "the process is not `rev-parse --git-dir`: " + strings.Join(s.Argv, " ")
+				}
+			}
+			return false, "output of an unidentified process"
+		}
+		return c.fromDiscovery(call, depth+1)
+	case *ssa.Call:
+		if len(x.Call.Args) == 0 {
+			return false, "value produced by " + calleeQ(&x.Call)
+		}
+		for _, a := range x.Call.Args {
+			if ok, _ := c.fromDiscovery(a, depth+1); ok {
+				return true, ""
+			}
+		}
+		return false, "computed by " + calleeQ(&x.Call) + " from values that are not git's answer"
+	case *ssa.Convert:
+		return c.fromDiscovery(x.X, depth+1)
+	case *ssa.ChangeType:
+		return c.fromDiscovery(x.X, depth+1)
+	case *ssa.Slice:
+		return c.fromDiscovery(x.X, depth+1)
+	case *ssa.BinOp:
+		if ok, _ := c.fromDiscovery(x.X, depth+1); ok {
+			return true, ""
+		}
+		return c.fromDiscovery(x.Y, depth+1)
+	case *ssa.Phi:
+		for _, e := range x.Edges {
+			if ok, why := c.fromDiscovery(e, depth+1); !ok {
+				return false, why
+			}
+		}
+		return true, ""
+	case *ssa.Parameter:
+		idx := paramIndex(x)
+		n := 0
+		for _, ci := range c.Callers[x.Parent()] {
+			if idx >= len(ci.Common().Args) {
+				continue
+			}
+			n++
+			if ok, why := c.fromDiscovery(ci.Common().Args[idx], depth+1); !ok {
+				return false, "call at " + c.pos(ci.Pos()) + ": " + why
+			}
+		}
+		if n == 0 {
+			return false, "parameter " + x.Name() + " of " + fnName(x.Parent()) + " has no caller in the module"
+		}
+		return true, ""
+	case *ssa.Const:
+		return false, "a constant"
+	}
+	return false, fmt.Sprintf("%T", v)
+}
+
+func asCallValue(ci ssa.CallInstruction) *ssa.Call {
+	call, _ := ci.(*ssa.Call)
+	return call
 }
